@@ -17,7 +17,7 @@ RULE = ('worlds = every DAG with ordered bases on <=n layers x {class layers '
         'NotImplementedError} x option vectors; each world is run on the real '
         'Runner (children = real Runner on a fresh build, in-process) and the '
         'set-up/tear-down/test trace of every (virtual) process is monitored; '
-        'non-trivial = >=2 layers or >=1 fault; distinct = canonical JSON of '
+        'plus 5 layer shapes x every position of a layer that cannot be torn down x {sequential, -j2} as REAL processes (pid-tagged trace: fresh pid per resumed layer); non-trivial = >=2 layers or >=1 fault; distinct = canonical JSON of '
         'the case')
 ASSUMPTIONS = [
     'hook-less layers are observed through the runner\'s own "Set up"/"Tear down" lines',
@@ -82,6 +82,12 @@ def cases(tier, seed):
                                     for ok in optkeys:
                                         yield [n, g, kind, naming, hookless,
                                                owners, unit, faults, ok]
+    # real processes: "the remaining layers run in fresh subprocesses"
+    for shape in CLI_SHAPES:
+        nl = len(CLI_SHAPES[shape][0])
+        for nie in range(nl):
+            for mode in ('seq', 'j2'):
+                yield ['cli', shape, nie, mode]
     if tier == 'thorough':
         n = 4
         for g in worlds.rot(list(worlds.dags(n)), seed):
@@ -94,6 +100,82 @@ def cases(tier, seed):
                         for ok in ('none', 'j2', 'rep'):
                             yield [n, g, kind, 'fwd', None, owners, False,
                                    faults, ok]
+
+
+CLI_SHAPES = {
+    'chain': ([('A', []), ('B', ['A']), ('C', ['B'])], ['A', 'B', 'C']),
+    'fork': ([('A', []), ('B', ['A']), ('C', ['A'])], ['A', 'B', 'C']),
+    'diamond': ([('A', []), ('B', ['A']), ('C', ['A']), ('D', ['B', 'C'])], ['B', 'C', 'D']),
+    'two_roots': ([('A', []), ('B', []), ('C', ['B'])], ['A', 'B', 'C']),
+    'unit_chain': ([('A', []), ('B', ['A'])], [None, 'A', 'B']),
+}
+
+
+def run_cli_case(shape, nie, mode):
+    lay, owners = CLI_SHAPES[shape]
+    layers = []
+    for i, (n, bs) in enumerate(lay):
+        L = {'n': n, 'b': list(bs), 'k': 'c', 'h': list(worlds.HOOKS_SD)}
+        if i == nie:
+            L['f'] = {'tearDown': 'NIE'}
+        layers.append(L)
+    tests = []
+    for o in owners:
+        tests.append({'n': 't' + (o or 'u'), 'l': o, 's': 'pass'})
+        tests.append({'n': 's' + (o or 'u'), 'l': o, 's': 'pass'})
+    spec = {'layers': layers, 'tests': tests}
+    res = runrt.run_cli(spec, ['-j2'] if mode == 'j2' else [], timeout=120)
+    sv = monitors.SpecView(spec)
+    viol = []
+    sig = {'part': 'cli', 'mode': mode}
+    d = 'real processes, shape %s, layer #%d cannot be torn down, %s: ' % (shape, nie, mode)
+    if res.rc != 0:
+        viol.append(('cli_failed', sig, d + 'exit %r\n%s' % (res.rc, res.text[-800:])))
+    # per real pid: the same stack monitor, on hook events only
+    pids = []
+    for ev in res.trace:
+        if ev[0] not in pids:
+            pids.append(ev[0])
+    parent = pids[0] if pids else None
+    by_pid = {}
+    for ev in res.trace:
+        by_pid.setdefault(ev[0], []).append(ev)
+
+    class R:
+        pass
+    for pid, evs in by_pid.items():
+        r = R()
+        r.trace = [(pid,) + tuple(e[1:]) + (True, True, 0, 0) for e in evs]
+        r.out = r.out_own = b''
+        r.children = []
+        for clause, detail in monitors.check_layer_stack(sv, r):
+            viol.append(('stack:' + clause, sig, d + detail))
+    where = {}
+    for ev in res.trace:
+        if ev[1] == 't' and ev[3] == 'body':
+            where.setdefault(ev[2], set()).add(ev[0])
+    for t in tests:
+        if len(where.get(t['n'], ())) != 1:
+            viol.append(('executed_once_in_one_process', sig, d + 'test %s ran in pids %s' % (t['n'], sorted(where.get(t['n'], ())))))
+    # after the NotImplementedError: later layers in fresh pids, one per layer
+    nie_pid_layers = {}
+    for ev in res.trace:
+        if ev[1] == 't' and ev[3] == 'body':
+            nie_pid_layers.setdefault(ev[0], set()).add(sv.tests[ev[2]].get('l'))
+    for pid, ls in nie_pid_layers.items():
+        if pid != parent and len(ls) > 1:
+            viol.append(('child_ran_two_layers', sig, d + 'pid %s ran %s' % (pid, sorted(map(str, ls)))))
+    if mode == 'j2' and parent in nie_pid_layers:
+        viol.append(('parent_ran_tests_under_j', sig, d + str(nie_pid_layers[parent])))
+    saw_nie = [ev for ev in res.trace if ev[0] == parent and ev[1] == 'L' and ev[3] == 'tearDown' and ev[4] == '!' and ev[5] == 'NIE']
+    if mode == 'seq' and saw_nie:
+        idx = res.trace.index(saw_nie[0])
+        later = {ev[0] for ev in res.trace[idx + 1:] if ev[1] == 't' and ev[3] == 'body'}
+        if parent in later:
+            viol.append(('test_after_nie_in_parent', sig, d))
+        if later and not (later - {parent}):
+            viol.append(('no_fresh_subprocess', sig, d))
+    return viol
 
 
 def build_spec(case):
@@ -126,6 +208,11 @@ def setup_worker():
 
 
 def run_case(case):
+    if case[0] == 'cli':
+        vs = run_cli_case(case[1], case[2], case[3])
+        return {'evals': 1, 'nontrivial': True, 'nogate': True,
+                'violations': [{'clause': c, 'sig': s, 'detail': d} for c, s, d in vs],
+                'outcome': 'cli', 'counters': {'real_process_runs': 1}}
     n, g, kind, naming, hookless, owners, unit, faults, ok = case
     spec, argv = build_spec(case)
     res = runrt.run_world(spec, argv)
